@@ -410,7 +410,7 @@ def c08_routes(tier, seed):
 C16_PROGRAMS = ["x = 1", "def f(a, *b, c=1):\\n    return a", "import os\\nprint(os.sep)", "class A:\\n    '''doc'''\\n    def m(self): return 1",
                 "y = [i for i in range(3)]", "async def f():\\n    yield 1", "lambda: (1, 2.0, 'a', b'b', None, ...)", "x = 1e999 - 1e999",
                 "while a:\\n    a -= 1", "try:\\n    pass\\nfinally:\\n    z = 2", "", "pass",
-"greeting = 'h\u00e9llo w\u00f6rld \u4e16\u754c'", "p = 'C:\\\\temp\\\\x' + '\\'' + \"\\t\"", "@staticmethod\\ndef deco(): pass"]
+"greeting = 'h\u00e9llo w\u00f6rld \u4e16\u754c'", "p = 'C:\\\\temp\\\\x' + '\\'' + \"\\t\"", "@staticmethod\\ndef deco(): pass", "x = 1\\n\x0c\\ny = 'a\x0cb'\\nz = 3"]
 
 
 def _cli(args, cwd=None):
@@ -554,6 +554,21 @@ def c16_cli(tier, seed):
                         msgs = ["case raised %s: %s" % (type(e).__name__, e)]
                     if msgs:
                         fails.append(fail("cli_contract", "%s:%r:%s" % (kind, prog, " ".join(flags)), msgs, {"kind": kind, "prog": prog, "flags": flags, "raw": True}))
+        # -e expressions as users write them: `linesep` is usable anywhere in the expression, also inside a generator expression or a lambda
+        for expr, src in (("'x = 1' + linesep + 'y = 2'", "x = 1" + os.linesep + "y = 2"), ("linesep.join(['a = 1', 'b = a'])", "a = 1" + os.linesep + "b = a"),
+                          ("''.join(line + linesep for line in ['x = 1', 'def f(): return x'])", "x = 1" + os.linesep + "def f(): return x" + os.linesep),
+                          ("(lambda: 'p = 1' + linesep)()", "p = 1" + os.linesep)):
+            for flags in ([], ["--json"]):
+                evals += 1
+                rc, out, err = _cli(["-e", expr] + flags)
+                cd, want = _api_text(src, "<string>", True, "--json" in flags)
+                msgs = []
+                if rc != 0:
+                    msgs.append("exit status %d for the valid -e expression %r: %s" % (rc, expr, err.strip()[-160:]))
+                elif out != want:
+                    msgs.append("stdout for -e %r differs from the API's result for the program it evaluates to" % expr)
+                if msgs:
+                    fails.append(fail("cli_contract", "e-expr:%s %s" % (expr, " ".join(flags)), msgs, {"e_expr": expr, "e_src": src, "flags": flags}))
         # a file named by a relative path, through a symlink, and with `..`: the printed data carries the path as it was given (as the API would for compile(src, path))
         os.makedirs(os.path.join(tmpdir, "pkg"), exist_ok=True)
         rel_src = "def f(a):\n    return lambda: a\n"
@@ -610,6 +625,10 @@ def c16_replay(rec):
         if not r["expect_ok"] and rc != 2:
             return ["exit status %d, usage error expected" % rc]
         return []
+    if "e_expr" in r:
+        rc, out, err = _cli(["-e", r["e_expr"]] + r["flags"])
+        cd, want = _api_text(r["e_src"], "<string>", True, "--json" in r["flags"])
+        return [] if (rc == 0 and out == want) else ["exit %d; stdout differs from the API's result" % rc]
     if "relpath" in r:
         d = tempfile.mkdtemp(prefix="pcv-c16r-")
         try:
